@@ -671,6 +671,29 @@ impl Session {
                     Err(e) => self.err_json(e),
                 }
             }
+            "watch_expr" => {
+                use chumsky::Parser;
+                let cond = if cmd["rw"].as_bool().unwrap_or(false) { BreakCondition::DataReadsWrites } else { BreakCondition::DataWrites };
+                let src = s("expr");
+                match bugstalker::ui::command::parser::expression::parser().parse(src.as_str()).into_result() {
+                    Err(_) => json!({"ok":false,"err":"ParseError"}),
+                    Ok(q) => match self.d().set_watchpoint_on_expr(&src, q, cond) {
+                        Ok(v) => json!({"ok":true,"num":v.number,"addr":v.address.as_u64()}),
+                        Err(e) => self.err_json(e),
+                    },
+                }
+            }
+            "unwatch_expr" => {
+                use chumsky::Parser;
+                let src = s("expr");
+                match bugstalker::ui::command::parser::expression::parser().parse(src.as_str()).into_result() {
+                    Err(_) => json!({"ok":false,"err":"ParseError"}),
+                    Ok(q) => match self.d().remove_watchpoint_by_expr(q) {
+                        Ok(v) => json!({"ok":true,"removed":v.is_some()}),
+                        Err(e) => self.err_json(e),
+                    },
+                }
+            }
             "unwatch_addr" => match self.d().remove_watchpoint_by_addr(RelocatedAddress::from(u("addr"))) {
                 Ok(v) => json!({"ok":true,"removed":v.is_some()}),
                 Err(e) => self.err_json(e),
